@@ -6,7 +6,8 @@ import ast
 from ..flow import ReachingDefs
 from ..program import (AnalysisError, call_name, const_str, dotted, kwarg,
                        norm_key, unparse, walk_no_nested)
-from ..util import for_heads, is_self_attr, loop_body_ids, nodes_with_call
+from ..util import (for_heads, is_self_attr, loop_body_ids, nodes_with_call,
+                    subscript_const)
 
 EXPLANATION = (
     'Decided clauses: R-C10.1 MoveToDjangoMigrations.simulate sets both the '
@@ -160,11 +161,10 @@ def r3_record_before_migrate(ctx):
         ctx.finding(f, None, 'execute_tasks never records the migrations '
                     'marked as applied', key='no-record')
     for n, c in recs:
-        if tests and any(g.guarded_by(n, t, 'T') for t in tests):
-            ctx.ok(f, 'record_applied_migrations only when migrating', c)
-        else:
-            ctx.finding(f, c, 'record_applied_migrations is not under '
-                        '"migrating"')
+        # (an earlier version of this rule also demanded the `if migrating:`
+        # guard; that is not a necessary condition of the property - the
+        # marked migrations must be recorded even when nothing is left to
+        # migrate - and it raised a false alarm on a correct repair)
         if heads and all(n.id not in g.reachable([h], follow_exc=False)
                          for h in heads) and \
                 all(h.id in g.reachable([n], follow_exc=False)
@@ -267,10 +267,7 @@ def r4_write_back(ctx):
             ctx.finding(f, n.ast, 'applied_migrations is written back from '
                         '%s, not from the migration table' %
                         unparse(n.ast.value))
-        if tests and any(g.guarded_by(n, t, 'T') for t in tests):
-            ctx.ok(f, 'write-back only when migrating', n.ast)
-        else:
-            ctx.finding(f, n.ast, 'write-back is not under "migrating"')
+        ctx.ok(f, 'write-back present', n.ast)
         after = heads and all(
             h.id not in g.reachable([n], follow_exc=False) and
             n.id in g.reachable([h], follow_exc=False) for h in heads)
@@ -340,7 +337,144 @@ def r5_upgrade_method_compared_by_value(ctx):
     ctx.floor('comparisons against UpgradeMethod members', n_cmp, 4)
 
 
+def r6_recorded_list_is_only_mark_applied(ctx):
+    """What execute_tasks records up front (without running it) must be
+    exactly the migrations MoveToDjangoMigrations named as already covered.
+    _build_migrations_info also needs "consider these applied" for planning
+    the post-stage (the pre-stage targets); if it adds those to the very
+    container that is recorded, every pre-stage migration is recorded before
+    it runs and again when it runs."""
+    ctx.rule('R-C10.6')
+    p = ctx.program
+    from ..flow import ReachingDefs
+    ex = p.func(TASK, 'EvolveAppTask.execute_tasks')
+    g = ctx.cfg(ex)
+    rd = ReachingDefs(g, ex.params)
+    recs = [(n, c) for n, c in nodes_with_call(g, 'record_applied_migrations')]
+    ctx.floor('record_applied_migrations calls in execute_tasks', len(recs), 1)
+    bm = p.func(TASK, 'EvolveAppTask._build_migrations_info')
+    bg = ctx.cfg(bm)
+    brd = ReachingDefs(bg, bm.params)
+    MUT = ('add_migration_targets', 'add_migration_info', 'add_migration',
+           'add_recorded_migration', 'update', 'extend', 'append', 'add')
+    for n, c in recs:
+        arg = kwarg(c, 'migrations') or (c.args[-1] if c.args else None)
+        src = ' '.join(unparse(e) for _, e in rd.origins(n, arg))
+        via_attr = 'extra_applied_migrations' in src
+        key = None
+        for _, e in rd.origins(n, arg):
+            for x in ast.walk(e):
+                if isinstance(x, ast.Subscript) and subscript_const(x) and \
+                        'state' in unparse(x.value):
+                    key = subscript_const(x)
+        # mutations of the loader's container with plan-derived targets
+        muts = []
+        for m in bg.nodes:
+            for mc in m.calls():
+                if call_name(mc) in MUT and isinstance(mc.func,
+                                                       ast.Attribute) and \
+                        isinstance(mc.func.value, ast.Name):
+                    base = mc.func.value
+                    osrc = ' '.join(unparse(e)
+                                    for _, e in brd.origins(m, base))
+                    asrc = ' '.join(unparse(a) for a in mc.args)
+                    if 'extra_applied_migrations' in osrc and \
+                            'target' in asrc and 'pre_' in asrc:
+                        muts.append((m, mc))
+        if via_attr:
+            # restored afterwards?
+            restored = False
+            for m, mc in muts:
+                for a in bg.nodes:
+                    if a.kind == 'stmt' and isinstance(a.ast, ast.Assign) and \
+                            any(isinstance(t, ast.Attribute) and
+                                t.attr == 'extra_applied_migrations'
+                                for t in a.ast.targets) and \
+                            a.id in bg.reachable([m], follow_exc=False):
+                        restored = True
+            if muts and not restored:
+                ctx.finding(bm, muts[0][1], 'the pre-stage migration targets '
+                            'are added to loader.extra_applied_migrations, '
+                            'the very container execute_tasks records as '
+                            'applied before running anything: every pre-stage '
+                            'migration is recorded before it runs, and again '
+                            'when it runs', key='recorded-list-gets-plan-'
+                            'targets')
+            else:
+                ctx.ok(bm, 'the recorded container is not left holding '
+                       'plan-derived targets')
+        else:
+            # a snapshot handed over through the task state
+            ok = False
+            for d in bg.nodes:
+                if d.kind == 'stmt' and isinstance(d.ast, ast.Assign) and \
+                        isinstance(d.ast.value, ast.Call) and \
+                        call_name(d.ast.value) in ('clone', 'copy',
+                                                   'deepcopy') and \
+                        'extra_applied_migrations' in unparse(d.ast.value):
+                    if not any(d.id in bg.reachable([m], follow_exc=False)
+                               for m, _mc in muts):
+                        ok = True
+            if ok:
+                ctx.ok(bm, 'what is recorded is a snapshot taken before the '
+                       'plan-derived targets are added')
+            else:
+                ctx.finding(bm, None, 'the list recorded by execute_tasks '
+                            '(%s) is not a snapshot taken before the '
+                            'pre-stage targets are added' % (key or src[:40]),
+                            key='recorded-list-not-a-snapshot')
+
+
+def r7_applied_list_always_published(ctx):
+    """The evolution graph discharges dependencies on migrations that are
+    already applied (or are being marked as applied) from
+    migrations_info['to_mark_applied'].  Whether that list is published may
+    not depend on there being a migration left to run: with
+    MoveToDjangoMigrations(mark_applied=<every migration of the app>) - the
+    default for an app whose only migration is 0001_initial - nothing is
+    pending, the dependency "evolution after migration 0001_initial" stays
+    in the graph and finalize() fails."""
+    ctx.rule('R-C10.7')
+    p = ctx.program
+    bm = p.func(TASK, 'EvolveAppTask._build_migrations_info')
+    g = ctx.cfg(bm)
+    sites = []
+    for n in g.nodes:
+        for d in n.walk():
+            if isinstance(d, ast.Dict) and 'to_mark_applied' in [
+                    const_str(k) for k in d.keys if k is not None]:
+                sites.append(n)
+        a = n.ast
+        if n.kind == 'stmt' and isinstance(a, ast.Assign) and any(
+                isinstance(t, ast.Subscript) and
+                subscript_const(t) == 'to_mark_applied' for t in a.targets):
+            sites.append(n)
+    if not sites:
+        ctx.finding(bm, None, '_build_migrations_info never publishes '
+                    'to_mark_applied', key='to-mark-applied-missing')
+        return
+    for n in sites:
+        plan_tests = [t for t in g.nodes if t.kind in ('test', 'operand') and
+                      any(isinstance(x, ast.Name) and 'plan' in x.id
+                          for x in ast.walk(t.ast))]
+        drop = {(t.id, 'T') for t in plan_tests}
+        if plan_tests and n.id not in g.reachable([g.entry], follow_exc=True,
+                                                  drop_edges=drop):
+            ctx.finding(bm, n.ast, 'to_mark_applied is only published when a '
+                        'migration plan is non-empty (%s): with nothing left '
+                        'to migrate, dependencies on applied / marked '
+                        'migrations are never discharged and '
+                        'DependencyGraph.finalize() fails' % ' / '.join(
+                            sorted({unparse(t.ast) for t in plan_tests})),
+                        key='to-mark-applied-needs-a-plan')
+        else:
+            ctx.ok(bm, 'to_mark_applied is published whether or not a '
+                   'migration is pending', n.ast)
+
+
 def run(ctx):
+    r7_applied_list_always_published(ctx)
+    r6_recorded_list_is_only_mark_applied(ctx)
     r5_upgrade_method_compared_by_value(ctx)
     r1_simulate_writes(ctx)
     r2_one_way(ctx)
